@@ -191,6 +191,10 @@ def generate(tier, rng):
         for pre in prefixes(3, 2):
             yield {"name": name, "mode": "explore", "init": init, "scripts": scripts, "prefix": pre,
                    "limit": 12 if quick else 120}
+    for cx in CONTEXTS:
+        for flavour in ("docs", "nodocs"):
+            yield {"name": "ctx:" + cx, "mode": "ctx", "context": cx, "flavour": flavour,
+                   "init": EMPTY, "scripts": [[["set", J1, "done", 1]], [["get", J1]]]}
     for i in range(40 if quick else 300):
         n = 2 if i % 2 == 0 else 3
         init, scripts = rand_scripts(rng, n)
@@ -615,6 +619,126 @@ def oracle(case, d, res, trace, label):
 
 
 # ----------------------------------------------------------------------------
+# writes and reads performed INSIDE the library's iteration contexts (loop bodies of groupby / find_jobs /
+# iteration, `with job:`): a write that has returned is on disk for every other process, and a write another
+# process has completed is seen by the next read - the library must not keep a hidden buffered mode switched on
+# while control is with the caller.  The "other process" is played by raw file access in the formats signac uses
+# (read = json.load of the document file; write = temp file + os.replace).  Oracle only (no model lines).
+# ----------------------------------------------------------------------------
+CONTEXTS = ["groupby-doc", "groupby-sp", "groupby-mixed", "groupby-callable", "cursor-groupby-doc", "groupbydoc",
+            "iterate", "find-doc-filter", "find-sp-filter", "with-job", "plain"]
+
+
+def _ctx_iter(p, cx, signac):
+    if cx == "groupby-doc":
+        return p.groupby("doc.x")
+    if cx == "groupby-sp":
+        return p.groupby("a")
+    if cx == "groupby-mixed":
+        return p.groupby(["a", "doc.x"])
+    if cx == "groupby-callable":
+        return p.groupby(lambda job: job.doc.get("x", -1))
+    if cx == "cursor-groupby-doc":
+        return p.find_jobs({"a": {"$exists": True}}).groupby("doc.x", default=-1)
+    if cx == "groupbydoc":
+        return p.find_jobs().groupby("doc.x", default=-1)
+    if cx == "iterate":
+        return iter(p)
+    if cx == "find-doc-filter":
+        return iter(p.find_jobs({"doc.x": {"$exists": True}}))
+    if cx == "find-sp-filter":
+        return iter(p.find_jobs({"a": {"$gt": 0}}))
+    return None
+
+
+def run_ctx(case, base):
+    import signac
+    fails = []
+    d = tempfile.mkdtemp(prefix="x", dir=base)
+    docs = {1: {"x": 0, "old": [1]}, 2: {"x": 1}, 3: {"x": 0}}
+    init = {"ws": True, "jobs": [{"sp": {"a": n}, "doc": dict(docs[n]) if (case["flavour"] == "docs" or n != 3) else None}
+                                 for n in (1, 2, 3)]}
+    make_tree(d, init)
+    p = signac.Project(d)
+    cx = case["context"]
+    label = "ctx %s/%s" % (cx, case["flavour"])
+
+    def docfile(n):
+        return os.path.join(d, WS, ref_id({"a": n}), DOC_FILE)
+
+    def raw_read(n):
+        try:
+            with open(docfile(n), "rb") as f:
+                return json.loads(f.read())
+        except FileNotFoundError:
+            return None
+
+    def raw_write(n, doc):
+        tmp = os.path.join(os.path.dirname(docfile(n)), "._other_process_tmp")
+        with open(tmp, "w") as f:
+            f.write(json.dumps(doc))
+        os.replace(tmp, docfile(n))
+
+    expect = {n: (dict(j["doc"]) if j["doc"] is not None else None) for n, j in zip((1, 2, 3), init["jobs"])}
+    rounds = [0]
+
+    def body(handles):
+        """One pass of the caller's loop body: own write -> visible outside; outside write -> visible inside."""
+        r = rounds[0]
+        rounds[0] += 1
+        n_w, n_r = (1, 2) if r % 2 == 0 else (2, 1)
+        # (i) a write of this process, through a fresh handle and through the handles the context handed out
+        for how, job in [("fresh", p.open_job({"a": n_w}))] + [("yielded", j) for j in handles if plain(j.statepoint()) == {"a": n_w}]:
+            key = "w%d%s" % (r, how[0])
+            job.doc[key] = r
+            expect[n_w] = dict(expect[n_w] or {}, **{key: r})
+            got = raw_read(n_w)
+            if got != expect[n_w]:
+                fails.append("%s: a document write through a %s handle returned inside the context, but the file holds %s "
+                             "(expected %s): a later read in another process does not see the completed write"
+                             % (label, how, json.dumps(got, sort_keys=True), json.dumps(expect[n_w], sort_keys=True)))
+        # (ii) a write completed by another process, then reads in this one
+        expect[n_r] = dict(expect[n_r] or {}, **{"ext%d" % r: [r]})
+        raw_write(n_r, expect[n_r])
+        for how, job in [("fresh", p.open_job({"a": n_r}))] + [("yielded", j) for j in handles if plain(j.statepoint()) == {"a": n_r}]:
+            got = plain(job.doc())
+            if got != expect[n_r]:
+                fails.append("%s: another process completed a document write, a later read through a %s handle inside the "
+                             "context returned %s (the file holds %s)"
+                             % (label, how, json.dumps(got, sort_keys=True), json.dumps(expect[n_r], sort_keys=True)))
+
+    try:
+        held = []
+        if cx == "plain":
+            body([])
+        elif cx == "with-job":
+            cwd = os.getcwd()
+            try:
+                j = p.open_job({"a": 1})
+                with j:
+                    body([j])
+            finally:
+                os.chdir(cwd)
+        else:
+            for item in _ctx_iter(p, cx, signac):
+                handles = list(item[1]) if isinstance(item, tuple) else [item]
+                held += handles
+                body(held)
+        body(held)     # after the context has ended
+        if signac.is_buffered():
+            fails.append("%s: buffered mode is still switched on after the context ended" % label)
+    except Exception as e:  # noqa: BLE001
+        fails.append("%s: %s: %s" % (label, type(e).__name__, str(e)[:200]))
+    for n in (1, 2, 3):
+        got = raw_read(n)
+        if got != expect[n] and not (got in (None, {}) and expect[n] in (None, {})):
+            fails.append("%s: final document of job a=%d is %s, expected %s" % (label, n, json.dumps(got, sort_keys=True),
+                                                                             json.dumps(expect[n], sort_keys=True)))
+    shutil.rmtree(d, ignore_errors=True)
+    return fails
+
+
+# ----------------------------------------------------------------------------
 # one run = one schedule
 # ----------------------------------------------------------------------------
 def one_run(case, base, chooser, tags):
@@ -702,10 +826,19 @@ def run_case(case, ctx):
             if st["nondeterministic"]:
                 out["oracle"].append("explore: the pending steps differed between two runs of the same schedule prefix "
                                      "(real code not deterministic under the stepper)")
+        elif mode == "ctx":
+            out["oracle"] += run_ctx(case, base)
+            tagset.add("ctx:" + case["context"])
+            n_sched = 1
         else:
             raise ValueError(mode)
     finally:
         ctx.cleanup(base)
+    if case["mode"] == "ctx":
+        out["tags"] = sorted(tagset) + ["mode=ctx"]
+        out["key"] = json.dumps([case["context"], case["flavour"]])
+        out["n_schedules"] = 1
+        return out
     n_act = len(case["scripts"])
     shared = False
     ids = [{ref_id(op[1]) for op in ops if op[0] in ("init", "set", "get")} for ops in case["scripts"]]
@@ -737,6 +870,8 @@ def _first_failing_schedule(case):
 
 
 def shrink(case):
+    if case["mode"] == "ctx":
+        return
     if case["mode"] != "sched":
         s = _first_failing_schedule(case)
         if s is not None:
